@@ -1,6 +1,6 @@
 // C05 -- A routed Message reaches exactly the sessions its patterns select, once each; traversal == brute force.
 //
-// MUTX over the in-process reflector (harness/reflector_l1.h): every case builds a FRESH real ReflectServer with 3-4 real
+// MUTX over the in-process reflector (harness/reflector_l1.h): every case builds a FRESH real ReflectServer with 2-4 real
 // StorageReflectSessions on 2 hosts (roles A=(hA,1) B=(hA,2) C=(hB,3) D=(hB,4)) and one of 8 fixed forests (SETDATA only).
 //
 // Part "routing".  One case = (forest, pattern set, filter mode, reflect-to-self flag, addressing mode).  Addressing modes:
@@ -73,7 +73,7 @@ static std::string FilterModeText(int fmode) { static const char * t[5] = { "non
 struct NodeDef { int role; const char * path; int pay; };
 struct ForestDef { const char * name; int nSess; NodeDef nodes[12]; };   // nodes terminated by role -1; parents before children
 static const ForestDef kForest[] = {
-   { "two-and-one",          3, { {0,"a",PV1}, {0,"b",PV2}, {1,"a",PW}, {-1,0,0} } },
+   { "two-sessions",         2, { {0,"a",PV1}, {0,"b",PV2}, {1,"a",PW}, {-1,0,0} } },
    { "nested-4",             4, { {0,"a",PV1}, {0,"b",PW}, {0,"ab",PV2}, {0,"a/c",PV1}, {1,"a/c",PW}, {1,"1",PV1}, {2,"12",PV1}, {2,"1",PW}, {3,"b",PV2}, {-1,0,0} } },
    { "literal-star",         3, { {0,"a*",PV1}, {0,"a",PV2}, {0,"ab",PW}, {1,"ab",PV1}, {2,"a*/c",PV1}, {-1,0,0} } },
    { "numbers",              4, { {0,"1",PV1}, {0,"3",PW}, {0,"12",PV2}, {1,"5",PV1}, {1,"6",PW}, {2,"12/1",PV1}, {2,"12/a",PW}, {3,"a",PV1}, {-1,0,0} } },
@@ -278,18 +278,23 @@ static void AddKeysAndFilters(const MessageRef & m, const std::vector<std::strin
    if (fmode != 0) for (size_t j = 0; j < keys.size(); j++) { MessageRef f = MakeFilter(FilterKindForKey(fmode, j)); (void) m()->AddMessage(PR_NAME_FILTERS, f() ? f : l1::NewMsg(0)); }
 }
 
+// "" when the server's tree (in-process walk, host and session nodes included) equals the reference forest
+static std::string TreeDiff(const l1::L1World & w, int f)
+{
+   static std::string payBytes[NPAY]; if (payBytes[0].empty()) for (int i = 0; i < NPAY; i++) payBytes[i] = l1::Flat(MakePayload(i));
+   const std::map<std::string, std::string> walk = w.WalkTree(1);
+   std::string diff;
+   for (size_t i = 0; i < g_ref[f].size(); i++) { std::map<std::string, std::string>::const_iterator it = walk.find(g_ref[f][i].full); if (it == walk.end()) diff += " missing " + g_ref[f][i].full; else if (it->second != payBytes[g_ref[f][i].pay]) diff += " wrong payload at " + g_ref[f][i].full; }
+   if (walk.size() != g_ref[f].size()) diff += " (server has " + l1::U32((uint32_t)walk.size()) + " nodes, reference " + l1::U32((uint32_t)g_ref[f].size()) + ")";
+   return diff.empty() ? diff : "forest on the server differs from the reference forest:" + diff;
+}
 // attaches the sessions and builds the forest; "" or an error text
 static std::string BuildWorld(l1::L1World & w, int f)
 {
    const ForestDef & F = kForest[f];
    for (int r = 0; r < F.nSess; r++) if (!w.Attach(r, kHost[r], IdOf(r))) return "attach failed";
    for (const NodeDef * d = F.nodes; d->role >= 0; d++) w.Inject(d->role, l1::SetData(d->path, MakePayload(d->pay)));
-   static std::string payBytes[NPAY]; if (payBytes[0].empty()) for (int i = 0; i < NPAY; i++) payBytes[i] = l1::Flat(MakePayload(i));
-   const std::map<std::string, std::string> walk = w.WalkTree(1);
-   std::string diff;
-   for (size_t i = 0; i < g_ref[f].size(); i++) { std::map<std::string, std::string>::const_iterator it = walk.find(g_ref[f][i].full); if (it == walk.end()) diff += " missing " + g_ref[f][i].full; else if (it->second != payBytes[g_ref[f][i].pay]) diff += " wrong payload at " + g_ref[f][i].full; }
-   if (walk.size() != g_ref[f].size()) diff += " (server has " + l1::U32((uint32_t)walk.size()) + " nodes, reference " + l1::U32((uint32_t)g_ref[f].size()) + ")";
-   if (!diff.empty()) return "forest on the server differs from the reference forest:" + diff;
+   { const std::string diff = TreeDiff(w, f); if (!diff.empty()) return diff; }
    for (int r = 0; r < F.nSess; r++) if (w.Pending(r)) return std::string("client ") + kRoleCh[r] + " was sent " + l1::MsgText(w.Drain(r)[0]) + " while the forest was built (nobody is subscribed)";
    return "";
 }
@@ -369,6 +374,7 @@ static void RunRouting(const CaseDef & cd, mutx::Case & c)
          } else if (!has && k != 0 && idErr.empty()) { idKey = "routing:sender-identity:field-dropped"; idErr = std::string("copy of Message seq ") + l1::U32((uint32_t)k) + " from " + kRoleCh[s] + " delivered to " + kRoleCh[r] + " lost the PR_NAME_SESSION field the sender supplied: " + l1::MsgText(q[i]); }
       }
    }
+   if (!TreeDiff(w, f).empty()) { c.Fail("routing:tree-changed-by-routed-message", ctx + "after the routed Messages the " + TreeDiff(w, f)); return; }
    std::string matrix;
    for (int s = 0; s < n; s++) for (int r = 0; r < n; r++) if (!got[s][r].empty()) { matrix += std::string(1, kRoleCh[s]) + ">" + kRoleCh[r] + ":"; for (size_t i = 0; i < got[s][r].size(); i++) matrix += (char)('0' + got[s][r][i]); matrix += " "; }
    c.Outcome(matrix);
@@ -379,19 +385,19 @@ static void RunRouting(const CaseDef & cd, mutx::Case & c)
    const Judge J(ps, cd.fmode, true);
    if (byKeys && !J.inDomain) { ADD(routingUncompared, 1); return; }
    ADD(routingCompared, 1);
-   bool owns[NROLE], sessNode[NROLE]; std::set<std::string> tops[NROLE]; std::string matchText[NROLE];
-   for (int r = 0; r < n; r++) { owns[r] = !byKeys; sessNode[r] = false; }
+   bool owns[NROLE], sessNode[NROLE]; int nMatch[NROLE]; std::set<std::string> tops[NROLE]; std::string matchText[NROLE];
+   for (int r = 0; r < n; r++) { owns[r] = !byKeys; sessNode[r] = false; nMatch[r] = 0; }
    if (byKeys) for (size_t i = 0; i < g_ref[f].size(); i++) {
       const RNode & nd = g_ref[f][i]; if (nd.owner < 0 || !J.Accepts(nd)) continue;
       owns[nd.owner] = true; matchText[nd.owner] += " " + nd.full;
-      if (nd.segs.size() == 2) sessNode[nd.owner] = true; else tops[nd.owner].insert(nd.segs[2]);
+      if (nd.segs.size() == 2) sessNode[nd.owner] = true; else { tops[nd.owner].insert(nd.segs[2]); nMatch[nd.owner]++; }
    }
    const std::vector<int> full = { 0, 1, 2 };
-   // F10 first: a default route that is simply not applied shows as the broadcast matrix
+   // F10 first: a default route that the server never registered (the session's parameter set lacks PR_NAME_KEYS; private member read for classification only)
    if (cd.kind == K_ROUTE) {
-      bool obsIsBroadcast = true, expIsBroadcast = true;
-      for (int s = 0; s < n; s++) for (int r = 0; r < n; r++) { const bool b = (r != s || cd.self); if (got[s][r] != (b ? full : std::vector<int>())) obsIsBroadcast = false; if ((b && owns[r]) != b) expIsBroadcast = false; }
-      if (obsIsBroadcast && !expIsBroadcast) { c.Fail("routing:default-route-not-applied", ctx + "every session set the keys as its PR_NAME_KEYS parameter, yet the unaddressed Messages were broadcast to everybody: " + matrix); return; }
+      bool deviates = false, registered = true;
+      for (int s = 0; s < n; s++) { if (!w.S(s)->_parameters.HasName(PR_NAME_KEYS, B_STRING_TYPE)) registered = false; for (int r = 0; r < n; r++) if (got[s][r] != (((r != s || cd.self) && owns[r]) ? full : std::vector<int>())) deviates = true; }
+      if (deviates && !registered) { c.Fail("routing:default-route-not-applied", ctx + "every session sent SETPARAMETERS with these keys as its PR_NAME_KEYS parameter, but the server did not keep the parameter and the unaddressed Messages were not routed by it (broadcast = every other session once): " + matrix); return; }
    }
    for (int s = 0; s < n; s++) for (int r = 0; r < n; r++) {
       ADD(pairChecks, 1);
@@ -413,7 +419,10 @@ static void RunRouting(const CaseDef & cd, mutx::Case & c)
       const bool allThere = cnt[0] && cnt[1] && cnt[2];
       if (allThere && g.size() > RUN_LEN) {
          std::string key = "routing:duplicate-delivery:";
-         if (tops[r].size() >= 2) key += "multiple-matching-subtrees"; else if (sessNode[r] && tops[r].size() >= 1) key += "session-node-and-subtree"; else key += "other";
+         if (sessNode[r] && tops[r].size() >= 1) key += "session-node-and-subtree"; else if (tops[r].size() >= 2) key += "multiple-matching-subtrees";
+         else if (byKeys && ps.keys.size() > 1 && J.allSameDepth) key = "routing:conspiracy:same-depth-patterns";   // the extra copies come through a node that no key matches
+         else if (nMatch[r] >= 2) key += "multiple-matching-nodes-in-one-subtree";   // a node and one of its descendants
+         else key += "other";
          c.Fail(key, ctx + who + verif::Fmt("expected each Message exactly once, received %d/%d/%d copies of seq 0/1/2 (order %s)", cnt[0], cnt[1], cnt[2], gt.c_str()) + tail); return;
       }
       if (allThere && !ordered) { c.Fail("routing:fifo-order-violated", ctx + who + "expected seq [0,1,2], received " + gt + tail); return; }
@@ -495,7 +504,8 @@ static void RunTraversal(const CaseDef & cd, mutx::Case & c)
       std::set<std::string> Fset; for (uint32_t i = 0; i < res.GetNumItems(); i++) { muscle::String np; (void) res[i]()->GetNodePath(np); Fset.insert(np()); }
       ADD(traversals, 1);
       const std::set<std::string> & want = anyAbsolute ? vGlobal : vRel0;
-      if (st.IsError() || Fset.size() != res.GetNumItems() || Fset != want) { c.Fail("traversal:FindMatchingNodes-differs-from-DoTraversal", ctx + "FindMatchingNodes(" + l1::Quote(ps.keys[0]) + ") called by session A returned " + SetText(Fset) + verif::Fmt(" (%u items, status %s)", (unsigned)res.GetNumItems(), st()) + ", the recorded traversal visited " + SetText(want)); return; }
+      const Judge J1(ps, cd.fmode, anyAbsolute);
+      if (J1.inDomain && (st.IsError() || Fset.size() != res.GetNumItems() || Fset != want)) { c.Fail("traversal:FindMatchingNodes-differs-from-DoTraversal", ctx + "FindMatchingNodes(" + l1::Quote(ps.keys[0]) + ") called by session A returned " + SetText(Fset) + verif::Fmt(" (%u items, status %s)", (unsigned)res.GetNumItems(), st()) + ", the recorded traversal visited " + SetText(want)); return; }
    }
    c.Outcome(outcome);
 }
@@ -546,7 +556,7 @@ int main(int argc, char ** argv)
                                        "every ORDERED pair from a %d-key subset of mixed depth (1-3 clauses, absolute and implicit; literal-only next to wildcard levels; same-depth pairs), session-directory keys paired with 6 others in both orders; every ordered triple from a %d-key subset; %d malformed keys (a//b, a/, /, backtick regex, ...) executed but not compared",
                                        args.Thorough() ? "the same 16" : "the 8-clause subset {a * c ~a (a|b) b,d ? <1-5>}", args.Thorough() ? 6 : 4, args.Thorough() ? " /hB/4/ /(hA|hB)/1,3/" : "", args.Thorough() ? ", 3 clauses over the 8-clause subset" : "",
                                        (int)(sizeof(kPair40) / sizeof(kPair40[0]) + (args.Thorough() ? sizeof(kPairMore) / sizeof(kPairMore[0]) : 0)), args.Thorough() ? 12 : 6, (int)(sizeof(kOutOfDomain) / sizeof(kOutOfDomain[0])));
-   const std::string forests = "8 fixed forests (3-4 sessions A,B on host hA, C,D on host hB; nodes a b ab c 1 3 5 6 12 a* [literal star] at 1-3 levels, e.g. a/c, a/12, ab/b, a/c/d, ab/1/a; payloads {what 0} {what 42} {v=1} {v=2} {what 42,v=1}; implicit intermediate nodes) built by SETDATA on a fresh real ReflectServer per case";
+   const std::string forests = "8 fixed forests (2-4 sessions: A,B on host hA, C,D on host hB; sessions without nodes included; nodes a b ab c 1 3 5 6 12 a* [literal star] at 1-3 levels, e.g. a/c, a/12, ab/b, a/c/d, ab/1/a; payloads {what 0} {what 42} {v=1} {v=2} {what 42,v=1}; implicit intermediate nodes) built by SETDATA on a fresh real ReflectServer per case";
 
    if (args.WantPart("routing")) {
       const double cpu0 = ChildCpuS();
